@@ -17,23 +17,23 @@ def leaves_value(a):
 
 
 SPLICE_LIMIT = 255
-TOKTEXT = {"Q": '"', "PL": "%(", "PR": "%)", "L": "(", "R": ")", "X": "1", "N": "\n", "BQ": '\\"', "BSQ": '\\\\"'}
+TOKTEXT = {"Q": '"', "PL": "%(", "PR": "%)", "L": "(", "R": ")", "X": "1", "N": "\n", "BQ": '\\"', "BSQ": '\\\\"', "PPL": "%%(", "PPR": "%%)"}
 
 
 def lexer_language(vd, drv, wd, tier):
     """tla/Lexer.tla: the state machine of STRING / STRING_EMBEDDED accepts exactly the documented language of
     string literals with embedded programs (TLC, all token sequences up to the bound); the sequences are replayed
     on the real parser: verdict against the language, parse tree against the segmentation of the model."""
-    runs = [(6, ["Q", "PL", "PR", "L", "R", "X"]), (9, ["Q", "PL", "PR", "R"]), (6, ["Q", "PL", "PR", "N", "X"]), (6, ["Q", "PL", "PR", "BQ", "BSQ", "R"])]
+    runs = [(6, ["Q", "PL", "PR", "L", "R", "X"]), (9, ["Q", "PL", "PR", "R"]), (6, ["Q", "PL", "PR", "N", "X"]), (6, ["Q", "PL", "PR", "BQ", "BSQ", "R"]), (7, ["Q", "PL", "PR", "PPL", "PPR"])]
     if tier == "thorough":
         runs = [(7, ["Q", "PL", "PR", "L", "R", "X"]), (10, ["Q", "PL", "PR", "R"]), (8, ["Q", "PL", "PR", "L", "R"]),
-                (7, ["Q", "PL", "PR", "N", "X"]), (7, ["Q", "PL", "PR", "BQ", "BSQ", "R"]), (8, ["Q", "PL", "PR", "BSQ", "R"])]
+                (7, ["Q", "PL", "PR", "N", "X"]), (7, ["Q", "PL", "PR", "BQ", "BSQ", "R"]), (8, ["Q", "PL", "PR", "BSQ", "R"]), (8, ["Q", "PL", "PR", "PPL", "PPR"])]
     # non-vacuity: without the reset of in_string at "%(" the theorem fails
     m = tlc.run_tlc("MCLexer", constants={"MaxLen": 9, "NoReset": True, "Pinned": "none", "SpliceLimit": SPLICE_LIMIT, "Tok": ["Q", "PL", "PR", "R"]}, workers=1, timeout=900, heap="8g")
     if "Assumption" not in m.out and "assumption" not in m.out:
         raise common.ToolError("Lexer.tla: the NoReset mutant is not caught\n" + m.out[-1500:])
     # ... nor without the copying of newlines, nor without the escaped backslash (the states before two repairs)
-    for pin in ("dropnl", "nopair"):
+    for pin in ("dropnl", "nopair", "nopct"):
         m = tlc.run_tlc("MCLexer", constants={"MaxLen": 3, "NoReset": False, "Pinned": pin, "SpliceLimit": SPLICE_LIMIT, "Tok": ["Q", "PL", "N"]}, workers=1, timeout=900, heap="4g")
         if "Assumption" not in m.out and "assumption" not in m.out:
             raise common.ToolError("Lexer.tla: the mutant %s is not caught\n" % pin + m.out[-1500:])
